@@ -1,7 +1,7 @@
 (* C16 - Cascade replicas: source resolution terminates, never self, never quorum.
    Theorems only; model Procs/Repair.v (findBestStreamFrom, repairCascadeNode). *)
 From Coq Require Import ZArith NArith Bool List.
-From Mysync Require Import Gtid.Interval Gtid.GtidSet Base.Prog Base.ProgFacts Base.Config Procs.NodeOps Procs.ActiveNodes Procs.Switchover Procs.Repair Proofs.RepairProofs.
+From Mysync Require Import Gtid.Interval Gtid.GtidSet Base.Prog Base.ProgFacts Base.Config Procs.NodeOps Procs.ActiveNodes Procs.Switchover Procs.Repair Proofs.RepairProofs Proofs.PromotedProofs.
 Import ListNotations.
 Open Scope Z_scope.
 
@@ -43,3 +43,10 @@ Theorem C16_cascade_repair_footprint : forall cfg env topo h ns la tr o,
   runs (repair_cascade_node cfg env topo h ns la) tr o -> Forall (fun e => rs_ok h (ev_call e)) tr.
 Proof. intros cfg env topo h ns la tr o H. exact (allcalls_sound _ _ (r_cascade cfg env topo h ns la) tr o H). Qed.
 Print Assumptions C16_cascade_repair_footprint.
+
+(* cascade replicas are not in the computed list (C04_membership), and only members of the list that performSwitchover is given are ever made writable by it: a cascade replica is not promoted *)
+Theorem C16_only_listed_hosts_are_promoted : forall cfg env sw mem tr o,
+  runs (perform_switchover cfg env sw mem) tr o ->
+  forall e h, In e tr -> ev_call e = Sql h SSetWritable -> In h (se_active env).
+Proof. exact promoted_host_is_listed. Qed.
+Print Assumptions C16_only_listed_hosts_are_promoted.
